@@ -97,6 +97,9 @@ package io
 //@   loop 1 invariant dec.reader == nil ==> same(dec.buf, old(dec.buf)) && dec.tail == old(dec.tail)
 //@   loop 1 invariant old(dec.Error) != nil ==> dec.Error != nil
 //@   loop 1 invariant arr(dec.buf) == old(arr(dec.buf)) || isnew(arr(dec.buf))
+//@   loop 1 invariant dec.reader != nil ==> forall(i, 0, len(data), data[i] == ghost.rstream[ival(dec.reader)][lp0 + i])
+//@   ensures [stream_content] dec.reader != nil ==> forall(i, 0, len(data), data[i] == ghost.rstream[ival(dec.reader)][lp0 + i])
+//@   ensures [memory_content] dec.reader == nil ==> forall(i, 0, len(data), data[i] == old(dec.buf[dec.head + i]))
 //@   ensures [never_more_than_asked] len(data) <= n0 || (n0 < 0 && len(data) == 0)
 //@   ensures [short_only_with_error] len(data) < n0 ==> dec.Error != nil
 //@   ensures [negative_length_is_an_error] n0 < 0 ==> dec.Error != nil
